@@ -229,7 +229,9 @@ BlankCfg == [all |-> "none", en |-> {}, dis |-> {},
 RECURSIVE CtxOf(_, _, _)
 CtxOf(lines, k, ctx) == IF k > Len(lines) THEN ctx ELSE CtxOf(lines, k + 1, CtxAfter(ctx, lines[k]))
 NoDraft == [kind |-> "", shape |-> ""]
-RBlank(prefix) == [lines |-> prefix, ctx |-> CtxOf(prefix, 1, "top"), cfg |-> BlankCfg, draft |-> NoDraft]
+\* `impl` caches ImplCase(case) once the case is complete (it is consulted at every show_error step)
+NoImpl == [lines |-> << >>, disabled |-> {}, unused_on |-> FALSE, bare_on |-> FALSE]
+RBlank(prefix) == [lines |-> prefix, ctx |-> CtxOf(prefix, 1, "top"), cfg |-> BlankCfg, draft |-> NoDraft, impl |-> NoImpl]
 CfgOrder == << "c1", "c2", "c4", "c5", "c6", "unused_ignore", "bare_ignore", "cn" >>
 
 RInit == case \in {RBlank(p) : p \in RPrefixes} /\ pc = "lines" /\ i = 0 /\ ms = RBlankMS /\ stack = << >> /\ pend = << >> /\ ops = << >>
@@ -274,7 +276,8 @@ RChooseFile ==
 
 RStart ==
     /\ pc = "cfg" /\ i > Len(CfgOrder)
-    /\ pc' = "ops" /\ i' = 1 /\ ops' = ROps(case) /\ UNCHANGED <<case, ms, stack, pend>>
+    /\ pc' = "ops" /\ i' = 1 /\ ops' = ROps(case) /\ case' = [case EXCEPT !.impl = ImplCase(case)]
+    /\ UNCHANGED <<ms, stack, pend>>
 
 Log(m, code, line, decision) == [m EXCEPT !.hist = Append(@, <<code, line, decision>>)]
 Top == Len(stack)
@@ -288,7 +291,7 @@ Catch(m, code, line) ==
 
 \* the rest of show_error: the decision chain of Suppression.tla (one action per return path below)
 Decide(m, code, line) ==
-    LET r == ImplShow(ImplCase(case), m, code, line, FALSE) IN [decision |-> r.decision, ms |-> Log(r.ms, code, line, r.decision)]
+    LET r == ImplShow(case.impl, m, code, line, FALSE) IN [decision |-> r.decision, ms |-> Log(r.ms, code, line, r.decision)]
 
 CatchBegin ==                           \* catch_errors() :544-548: qcore.override(self, "caught_errors", [])
     /\ pc = "ops" /\ pend = << >> /\ i <= Len(ops) /\ ops[i].op = "begin"
@@ -331,12 +334,12 @@ Decisions == {"disabled", "file_ignore", "duplicate", "this_line", "prev_line", 
 
 RUnusedPass ==
     /\ pc = "ops" /\ i > Len(ops) /\ pend = << >>
-    /\ ms' = [ms EXCEPT !.out = @ \o ImplUnusedFrom(ImplCase(case), ms.used, 1)]
+    /\ ms' = [ms EXCEPT !.out = @ \o ImplUnusedFrom(case.impl, ms.used, 1)]
     /\ pc' = "bare" /\ UNCHANGED <<case, i, stack, pend, ops>>
 
 RBarePass ==
     /\ pc = "bare"
-    /\ ms' = [ms EXCEPT !.out = @ \o ImplBare(ImplCase(case))]
+    /\ ms' = [ms EXCEPT !.out = @ \o ImplBare(case.impl)]
     /\ pc' = "done" /\ UNCHANGED <<case, i, stack, pend, ops>>
 
 RNext == \/ RPickShape \/ RAddLine \/ RChooseAll \/ RChooseCode \/ RChooseFile \/ RStart
